@@ -1,0 +1,27 @@
+//go:build verif
+
+package rfc8937
+
+// Contracts for the deductive checker in /verif (comment-only; compiled only under the verif tag).
+// Reader model: specs/reader.spec (shk(r) is the position of reader r in its abstract stream).
+
+// RFC 8937 wrapper (C07): EVERY successful Read draws a fresh block of L bytes from the wrapped generator at its
+// current position (the wrapped reader moves forward by exactly that block, on the same stream), the extraction key
+// of this call is HKDF-Extract over exactly those bytes and the device salt, and the output block is HKDF-Expand of
+// THAT key under this call's counter value: no output depends on a key cached from an earlier call.
+//@ func (*WrappedReader).Read
+//@   property C07
+//@   uses reader
+//@   ghostvar g0 []byte
+//@   ghostvar k0 typeof(key)
+//@   ghostvar t0 typeof(tag2)
+//@   ghostvar gp typeof(gPrime)
+//@   requires r != nil
+//@   ensures err == nil ==> len(g0) == hashFunc().Size() && bytesEq(g0, squeeze(old(shk(r.wrapee)), len(g0)))
+//@   ensures err == nil ==> shk(r.wrapee) == advance(old(shk(r.wrapee)), len(g0)) && r.wrapee == old(r.wrapee)
+//@   ensures err == nil ==> k0 == res(hkdf.Extract(hashFunc, g0, r.salt), 0) && gp == res(hkdf.Expand(hashFunc, k0, fmt.Sprintf("%d", t0), len(p)), 0)
+//@   ensures err == nil ==> n == len(gp)
+//@   ghostset after "_, err = io.ReadFull(r.wrapee, g)": g0 = g
+//@   ghostset after "key, err := hkdf.Extract(hashFunc, g, r.salt)": k0 = key
+//@   ghostset after "tag2 := r.counter.Add(1)": t0 = tag2
+//@   ghostset after "gPrime, err := hkdf.Expand(hashFunc, key,": gp = gPrime
